@@ -168,6 +168,12 @@ def build_probe(name, includes=(), asan=False, extra=()):
 # Coq side
 
 
+def translate_funcs():
+    """tools/c2clite.py: the whitelisted C functions of REPO as CLite terms (coq/GenCFuncs.v)."""
+    r = sh([sys.executable, os.path.join(VERIF, 'tools', 'c2clite.py'), REPO, COQ])
+    return r.returncode == 0, r.stdout
+
+
 def coq_lock():
     os.makedirs(BUILD, exist_ok=True)
     f = open(os.path.join(BUILD, '.coq.lock'), 'w')
